@@ -478,7 +478,12 @@ func (fi *forwardIndex) GetGroupingContext(ctx *flow.ShardExecuteContext) error 
 	}
 
 	snapshot := fi.family.GetSnapshot()
-	defer snapshot.Close()
+	keepSnapshot := false
+	defer func() {
+		if !keepSnapshot {
+			snapshot.Close()
+		}
+	}()
 
 	finalSeriesIDs := seriesIDs.Clone()
 	defer func() {
@@ -505,6 +510,10 @@ func (fi *forwardIndex) GetGroupingContext(ctx *flow.ShardExecuteContext) error 
 
 	// set context for next execution stage of query
 	ctx.GroupingContext = flow.NewGroupContext(tagKeyIDs, scannerMap)
+	// NOTE: the grouping scanners read the table files of the snapshot(mmap) in later stages of the query,
+	// the snapshot keeps those files alive until the query releases the shard context.
+	keepSnapshot = true
+	ctx.OnRelease(snapshot.Close)
 	return nil
 }
 
